@@ -226,6 +226,30 @@ impl Rec {
         self.emit("clone", format!("clone {} {}", id, nid), "ok".into());
         nid
     }
+    /// `Clone::clone_from`: the live instance `dst` (any history, same or different parameters) is overwritten
+    /// with a copy of `src`.  For the model this is exactly "slot dst := copy of src", which the driver's
+    /// `clone <src> <dst>` line already expresses (it overwrites an occupied slot), so no new op is needed.
+    /// false = the call panicked (dst is dropped, nothing is logged for the model).
+    pub fn clone_from(&mut self, dst: usize, src: usize) -> bool {
+        let mut d = self.insts[dst].take().expect("live instance");
+        let s = self.insts[src].take().expect("live instance");
+        let r = catch_unwind(AssertUnwindSafe(|| d.clone_from_ind(&s)));
+        self.insts[src] = Some(s);
+        match r {
+            Ok(()) => {
+                self.insts[dst] = Some(d);
+                self.taint[dst] = self.taint[src];
+                self.emit("clone_from", format!("clone {} {}", src, dst), "ok".into());
+                true
+            }
+            Err(_) => {
+                self.panics += 1;
+                drop(d);
+                self.drop_(dst);
+                false
+            }
+        }
+    }
     /// serialize + deserialize through bincode; the copy gets a new id
     pub fn serde(&mut self, id: usize) -> usize {
         let inst = self.insts[id].as_ref().expect("live");
